@@ -381,7 +381,8 @@ pub fn run(ctx: &Ctx) -> i32 {
   }
   // exponent sweep around the critical parallels / meridians, a spread of nside values
   {
-    let pos = crate::alpha::exponent_sweep_positions();
+    let mut pos = crate::alpha::exponent_sweep_positions();
+    pos.extend(crate::alpha::degree_positions().into_iter().step_by(3)); // "round" user values: integer degrees
     let ns: Vec<u32> = vec![1, 2, 3, 5, 8, 100, 4099, 65536, 1_000_003, 1 << 29];
     let sweep = par_jobs(ns.len(), |k| {
       let mut part = Part::new();
